@@ -185,6 +185,11 @@ func (l *Location) ShouldModifyQuery() bool {
 
 // AddQuery add query to request
 func (l *Location) AddQuery(req *http.Request) {
+	// 客户端的query无法解析（如包含";"或不完整的"%"）时，保持其原始数据，仅追加配置的query
+	if _, err := url.ParseQuery(req.URL.RawQuery); err != nil {
+		req.URL.RawQuery += "&" + l.Query.Encode()
+		return
+	}
 	query := req.URL.Query()
 	for key, values := range l.Query {
 		for _, value := range values {
